@@ -371,6 +371,7 @@ func Main(args []string) int {
 	out := fs.String("out", "gauge.ndjson", "output tree log")
 	seed := fs.Int64("seed", 1, "seed")
 	runs := fs.Int("runs", 10, "random behaviours")
+	first := fs.Int("first", 0, "index of the first random behaviour (behaviour i is determined by seed and i)")
 	steps := fs.Int("steps", 60, "steps per behaviour")
 	nbig := fs.Int("bigsplits", 300, "seeded real-size Split vectors")
 	fs.Parse(args)
@@ -395,7 +396,7 @@ func Main(args []string) int {
 			nstates += ns
 		}
 	}
-	for i := 0; i < *runs; i++ {
+	for i := *first; i < *first+*runs; i++ {
 		drive(lg, *seed, i, *steps)
 	}
 	if err := lg.Write(*out); err != nil {
